@@ -213,7 +213,13 @@ pub fn execute(p: &P, seed: u64) -> RunOut {
                 let view = w.view(*a);
                 part.iter().filter(|b| *b != a).all(|b| view.contains(&w.id_of(*b)))
             });
-            if integrated {
+            // with packets too small to feed the whole cluster, integration is not promised (only the
+            // zero-false-suspicion clause applies): do not wait for it beyond three times the bound
+            let give_up = !p.feeds_whole_cluster && (w.now - last_announce) > 3 * (2 * joined as u64 + 1) * period;
+            if give_up && !integrated {
+                out.stats.inc("c02_f1_small_packets_joiner_not_integrated_moved_on");
+            }
+            if integrated || give_up {
                 waiting_for_integration = false;
                 if p.feeds_whole_cluster {
                     out.stats.max("c02_f1_integration_permille_of_bound", (w.now - last_announce) * 1000 / ((2 * joined as u64 + 1) * period));
